@@ -66,7 +66,27 @@ func segFingerprint(env *core.Env) string {
 	return sb.String()
 }
 
-func runProgramOn(c *core.Ctx, fsk core.FSKind, cfg core.Config, keys [][]byte, steps []c17step) (trace []string, err error) {
+// scribbleSafely overwrites a slice the API returned to the caller; a fault (e.g. the slice points into a
+// read-only file mapping) is reported instead of killing the process.
+func scribbleSafely(v []byte) (faulted bool) {
+	defer func() {
+		if r := recover(); r != nil {
+			faulted = true
+		}
+	}()
+	for j := range v {
+		v[j] ^= 0x5A
+	}
+	return false
+}
+
+func fnvOf(b []byte) uint64 {
+	h := fnv.New64a()
+	h.Write(b)
+	return h.Sum64()
+}
+
+func runProgramOn(c *core.Ctx, fsk core.FSKind, cfg core.Config, keys [][]byte, steps []c17step, big, bigEvery int) (trace []string, err error) {
 	env := core.NewEnv(fsk)
 	envs := []*core.Env{env}
 	defer func() {
@@ -84,6 +104,7 @@ func runProgramOn(c *core.Ctx, fsk core.FSKind, cfg core.Config, keys [][]byte, 
 		}
 	}()
 	add := func(format string, a ...interface{}) { trace = append(trace, fmt.Sprintf(format, a...)) }
+	nput := 0
 	e2s := func(err error) string {
 		if err != nil {
 			return "ERR"
@@ -135,12 +156,30 @@ func runProgramOn(c *core.Ctx, fsk core.FSKind, cfg core.Config, keys [][]byte, 
 		}
 		switch op.K {
 		case core.OpPut:
-			add("%d put %s", i, e2s(db.Put(key, core.MakeVal(i, op.VLen))))
+			vlen := op.VLen
+			nput++
+			if big > 0 && nput%bigEvery == bigEvery-1 {
+				vlen = big // a value of a few MiB: the file grows past the pages touched so far
+			}
+			add("%d put %s", i, e2s(db.Put(key, core.MakeVal(i, vlen))))
+			if vlen == big && big > 0 {
+				// read the record back before anything else is written to its segment
+				v, err := db.Get(key)
+				add("%d get-after-big-put len=%d fnv=%x %s", i, len(v), fnvOf(v), e2s(err))
+			}
 		case core.OpDelete:
 			add("%d del %s", i, e2s(db.Delete(key)))
 		case core.OpGet:
 			v, err := db.Get(key)
-			add("%d get %x nil=%v %s", i, v, v == nil, e2s(err))
+			if len(v) > 64 {
+				add("%d get len=%d fnv=%x %s", i, len(v), fnvOf(v), e2s(err))
+			} else {
+				add("%d get %x nil=%v %s", i, v, v == nil, e2s(err))
+			}
+			// the returned slice is the caller's: writing into it must not show anywhere else
+			if faulted := scribbleSafely(v); faulted {
+				add("%d get-result-not-writable", i)
+			}
 		case core.OpGetAppend:
 			v, err := db.GetAppend(key, []byte("p"))
 			add("%d getappend %x nil=%v %s", i, v, v == nil, e2s(err))
@@ -219,10 +258,16 @@ func runC17(c *core.Ctx) {
 			steps = append(steps, c17step{extra: "unclean", tail: tail})
 		}
 	}
+	big := 0
+	if c.Case%8 == 5 {
+		big = 2<<20 + rng.Intn(2<<20)
+		cfg.MaxSeg = 0
+		c.Stat("programs_with_multi_MiB_values", 1)
+	}
 	kinds := []core.FSKind{core.FSOS, core.FSOSMMap, core.FSMem, core.FSCrash}
 	traces := map[core.FSKind][]string{}
 	for _, k := range kinds {
-		tr, err := runProgramOn(c, k, cfg, ks.Keys, steps)
+		tr, err := runProgramOn(c, k, cfg, ks.Keys, steps, big, 60)
 		if err != nil {
 			c.Violation("setup-error", fmt.Sprintf("program could not run on %s: %v", k, err), nil)
 			return
